@@ -122,7 +122,7 @@ def json_records(recs):
     out = []
     for r in recs:
         items = r.items() if isinstance(r, dict) else r
-        out.append("{" + ", ".join("%s: %s" % (json.dumps(k), json.dumps(v)) for k, v in items) + "}")
+        out.append("{" + ", ".join("%s: %s" % (json.dumps(k, ensure_ascii=False), json.dumps(v, ensure_ascii=False)) for k, v in items) + "}")
     return "[\n" + ",\n".join(out) + "\n]\n"
 
 
